@@ -6,7 +6,7 @@ HOOKS = {
     "add_only": True,
 }
 ENGINES = [
-    {"name": "verus", "path": "/verif/lib/verusrun.py", "serves_properties": ["C17", "C06", "C07"],
+    {"name": "verus", "path": "/verif/lib/verusrun.py", "serves_properties": ["C17", "C06", "C07", "C01", "C10"],
      "kind_free_text": "Verus 0.2026.09.13 (z3) on text extracted from /repo/src on every run by /verif/tools/extract (syn AST anchors, byte-copied bodies)"},
 ]
 NOTES = ("Contract-based deductive verification. exit 0 = all obligations discharged; exit 1 = VIOLATION; "
@@ -34,12 +34,24 @@ CHECKS["C07"] = {
     "text": "Unbounded proof over all nine AR4JA codes (symbolic rate and size) that M follows Table 7-2, pi_k(i) equals the Blue Book formula and stays below M, theta/phi tables equal the pinned tables, and h() never panics or overflows and returns a well-formed 3M x (k+3M) matrix; see evidence for the view-level obligations registered.",
     "note": "Trusted: Verus/z3, the extractor (N3 on the two statics), SparseMatrix::new. Not decided: rank, invertibility of the last 3M columns, girth, the C2 code (uses enumerate), equality with pinned matrices.",
 }
+CHECKS["C01"] = {
+    "engine": "verus",
+    "design_ref": "DESIGN.md section 5, C01",
+    "technique": "Verus contract on the extracted real text of both decode() functions, generic in the arithmetic (one proof covers all 36 instantiations)",
+    "text": "Unbounded proof, for every arithmetic implementing the trait, every matrix, every LLR vector and every limit below usize::MAX, that decode() of both schedules returns results satisfying the verdict / word / iteration-count relation of the property, relative to the trusted contracts of its callees.",
+    "note": "Trusted: check_llrs, hard_decisions, initialize, process_* (external_body; frames derived from the source's syntactic write sets), purity of llr_hard_decision/var_llr_to_llr, one f64 axiom, parity_ok uninterpreted. The trusted contracts are cross-checked on the real decoders by bounded Kani harnesses where registered (see evidence).",
+}
+CHECKS["C10"] = {
+    "engine": "verus",
+    "design_ref": "DESIGN.md section 5, C10",
+    "technique": "Verus contract: decode() result equals a recursive spec function of (rules, H, LLRs, limit) in which old(self)'s buffers do not occur; callee frames derived from syntactic write sets",
+    "text": "Unbounded proof that decode() of both schedules reads no buffer that has not been rewritten since entry, so each call returns what a fresh decoder returns; state-independence per call gives every finite history.",
+    "note": "Trusted: the functional claims of initialize/process_* (each buffer in a callee's write set is completely rewritten from the named inputs), scratch state inside arithmetic objects abstracted by rules(); staleness inside the trusted callees or inside an arithmetic's scratch buffers is visible only to the bounded Kani harnesses.",
+}
 NOT_APPLICABLE = {
-    "C01": "check under construction (DESIGN.md section 5, C01): not registered until it runs green on the unchanged tree",
     "C03": "check under construction (DESIGN.md section 5, C03)",
     "C04": "check under construction (DESIGN.md section 5, C04)",
     "C05": "check under construction (DESIGN.md section 5, C05)",
-    "C10": "check under construction (DESIGN.md section 5, C10)",
     "C14": "check under construction (DESIGN.md section 5, C14)",
     "C15": "check under construction (DESIGN.md section 5, C15)",
     "C18": "check under construction (DESIGN.md section 5, C18)",
